@@ -57,6 +57,9 @@ package implements
 //@   assigns nothing
 // the type that is modelled for parameter k: the element type for the variadic last parameter (a slice), else its type
 //@ macro func elemT(tuple *types.Tuple, k int, isVariadic bool) types.Type = (isVariadic && k == tuple.Len() - 1 && typeis(tuple.At(k).Type(), *types.Slice)) ? cast(tuple.At(k).Type(), *types.Slice).Elem() : tuple.At(k).Type()
+//@ macro func tupleModelI(l []InterfaceType, tuple *types.Tuple, isVariadic bool) bool = tuple == nil ? len(l) == 0 : (len(l) == tuple.Len() && (forall k int :: 0 <= k && k < tuple.Len() ==> l[k].TypeName == mName(elemT(tuple, k, isVariadic)) && l[k].TypePackage == mPkg(elemT(tuple, k, isVariadic)) && l[k].IsPointer == mPtr(elemT(tuple, k, isVariadic)) && l[k].IsVariadic == (isVariadic && k == tuple.Len() - 1)))
+//@ macro func tupleModelM(l []MethodType, tuple *types.Tuple, isVariadic bool) bool = tuple == nil ? len(l) == 0 : (len(l) == tuple.Len() && (forall k int :: 0 <= k && k < tuple.Len() ==> l[k].TypeName == mName(elemT(tuple, k, isVariadic)) && l[k].TypePackage == mPkg(elemT(tuple, k, isVariadic)) && l[k].IsPointer == mPtr(elemT(tuple, k, isVariadic)) && l[k].IsVariadic == (isVariadic && k == tuple.Len() - 1)))
+//@ macro func sigOfFunc(f *types.Func) *types.Signature = cast(f.Type(), *types.Signature)
 //@ func extractTypesFromTuple
 //@   props C05 C10
 //@   nilable tuple
@@ -80,8 +83,10 @@ package implements
 //@   assigns nothing
 //@   ensures len(result) == iface.NumMethods()
 //@   ensures forall a int :: 0 <= a && a < len(result) ==> result[a].Name == iface.Method(a).Name()
+//@   ensures forall a int :: 0 <= a && a < len(result) ==> tupleModelI(result[a].Inputs, sigOfFunc(iface.Method(a)).Params(), sigOfFunc(iface.Method(a)).Variadic()) && tupleModelI(result[a].Outputs, sigOfFunc(iface.Method(a)).Results(), false)
 //@   loop 1 invariant 0 <= $v && $v <= iface.NumMethods() && len(methods) == $v
 //@   loop 1 invariant forall a int :: 0 <= a && a < len(methods) ==> methods[a].Name == iface.Method(a).Name()
+//@   loop 1 invariant forall a int :: 0 <= a && a < len(methods) ==> tupleModelI(methods[a].Inputs, sigOfFunc(iface.Method(a)).Params(), sigOfFunc(iface.Method(a)).Variadic()) && tupleModelI(methods[a].Outputs, sigOfFunc(iface.Method(a)).Results(), false)
 // the type's methods are read from go/types' method set of *T (which contains the methods of T and *T, including the ones
 // promoted through embedding): one model per selection, in order, with its name and whether its receiver is a pointer
 //@ macro func msOf(named *types.Named) *types.MethodSet = types.NewMethodSet(types.NewPointer(named))
@@ -90,9 +95,11 @@ package implements
 //@   assigns nothing
 //@   ensures len(result) == msOf(named).Len()
 //@   ensures forall a int :: 0 <= a && a < len(result) ==> result[a].Name == msOf(named).At(a).Obj().Name() && result[a].ReceiverIsPointer == typeis(cast(cast(msOf(named).At(a).Obj(), *types.Func).Type(), *types.Signature).Recv().Type(), *types.Pointer)
+//@   ensures forall a int :: 0 <= a && a < len(result) ==> tupleModelM(result[a].Inputs, sigOfFunc(cast(msOf(named).At(a).Obj(), *types.Func)).Params(), sigOfFunc(cast(msOf(named).At(a).Obj(), *types.Func)).Variadic()) && tupleModelM(result[a].Outputs, sigOfFunc(cast(msOf(named).At(a).Obj(), *types.Func)).Results(), false)
 //@   ensures forall a int, b int :: 0 <= a && a < b && b < len(result) ==> result[a].Name != result[b].Name
 //@   loop 1 invariant 0 <= $v && $v <= methodSet.Len() && methodSet != nil && len(methods) == $v
 //@   loop 1 invariant methodSet == msOf(named)
+//@   loop 1 invariant forall a int :: 0 <= a && a < len(methods) ==> tupleModelM(methods[a].Inputs, sigOfFunc(cast(methodSet.At(a).Obj(), *types.Func)).Params(), sigOfFunc(cast(methodSet.At(a).Obj(), *types.Func)).Variadic()) && tupleModelM(methods[a].Outputs, sigOfFunc(cast(methodSet.At(a).Obj(), *types.Func)).Results(), false)
 //@   loop 1 invariant forall a int :: 0 <= a && a < len(methods) ==> methods[a].Name == methodSet.At(a).Obj().Name() && methods[a].ReceiverIsPointer == typeis(cast(cast(methodSet.At(a).Obj(), *types.Func).Type(), *types.Signature).Recv().Type(), *types.Pointer)
 //@ func isPointerReceiver
 //@   props C10
